@@ -55,14 +55,31 @@ Section Good.
     - now apply String.eqb_eq.
   Qed.
 
-  (* the cross-reference obligation: no wrapper reads the switch when it is called *)
-  Lemma no_call_reads : forall d, call_reads M d = false.
+  (* the cross-reference obligation: no wrapper reads the switch when it is called, no factory when the decorator object
+     is created *)
+  Lemma no_phase_reads : forall (sel : phase -> bool),
+    (forall p, sel p = true -> match p with PhCall _ | PhCreate _ => True | _ => False end) ->
+    existsb (fun r => reads_switch (er_kind r) && sel (er_phase r)) (sm_refs M) = false.
   Proof.
-    intro d. destruct good_parts as (_ & _ & _ & _ & R & _). unfold refs_ok in R. unfold call_reads.
+    intros sel Hsel. destruct good_parts as (_ & _ & _ & _ & R & _). unfold refs_ok in R.
     apply not_true_is_false. intro H. apply existsb_exists in H as (r & Hin & Hr).
     rewrite forallb_forall in R. specialize (R r Hin).
-    apply andb_true_iff in Hr as [Hk Hp]. unfold ref_allowed in R.
-    destruct (er_phase r); try discriminate. destruct (er_kind r); simpl in *; discriminate.
+    apply andb_true_iff in Hr as [Hk Hp]. apply Hsel in Hp. unfold ref_allowed in R.
+    destruct (er_phase r); try contradiction; destruct (er_kind r); simpl in *; discriminate.
+  Qed.
+
+  Lemma no_call_reads : forall d, call_reads M d = false.
+  Proof.
+    intro d. unfold call_reads.
+    apply (no_phase_reads (fun p => match p with PhCall s => site_relevant d s | _ => false end)).
+    intros []; try discriminate; auto.
+  Qed.
+
+  Lemma no_create_reads : forall d, create_reads M d = false.
+  Proof.
+    intro d. unfold create_reads.
+    apply (no_phase_reads (fun p => match p with PhCreate s => site_relevant d s | _ => false end)).
+    intros []; try discriminate; auto.
   Qed.
 
   Lemma call_behaviour_env_independent : forall o e1 e2, call_behaviour M o e1 = call_behaviour M o e2.
@@ -73,28 +90,48 @@ Section Good.
     intros d x e. destruct good_parts as (_ & _ & _ & _ & _ & W & _). simpl. now rewrite W, no_call_reads.
   Qed.
 
+  (* applying a decorator under an in-domain value of the variable *)
+  Lemma decorate_dom : forall s d x e, in_domain e = true ->
+    decorate M s d x e = if spec_enabled e then (add_obj s (Wrapped d x), ODeco false) else (add_obj s (Identity x), ODeco true).
+  Proof.
+    intros s d x e Hd. destruct good_parts as (IE & _ & _ & HON & _).
+    unfold decorate. rewrite HON, (IE _ Hd). now destruct (spec_enabled e).
+  Qed.
+
   Definition tag (o : dobj) : bool := match o with Identity _ => false | Wrapped _ _ => true end.
   Definition rel (s : state) (sp : sstate) : Prop :=
-    env s = s_env sp /\ map tag (objs s) = s_objs sp /\ in_domain (env s) = true.
+    env s = s_env sp /\ map tag (objs s) = s_objs sp /\ in_domain (env s) = true /\ List.length (decos s) = s_decos sp.
 
   Lemma nth_error_map' : forall A B (f : A -> B) l i, nth_error (map f l) i = option_map f (nth_error l i).
   Proof. induction l; destruct i; simpl; auto. Qed.
 
+  Lemma decorate_refines : forall s sp d x, rel s sp ->
+    rel (fst (decorate M s d x (env s))) (fst (spec_decorate sp)) /\ snd (decorate M s d x (env s)) = snd (spec_decorate sp).
+  Proof.
+    intros s sp d x (He & Ho & Hd & Hk). rewrite (decorate_dom s d x _ Hd). unfold spec_decorate, rel. rewrite <- He.
+    destruct (spec_enabled (env s)); cbn [fst snd add_obj env objs decos s_env s_objs s_decos negb];
+      rewrite map_app, Ho; auto.
+  Qed.
+
   Lemma step_refines : forall s sp o, rel s sp -> op_in_domain o = true ->
     rel (fst (step M s o)) (fst (spec_step sp o)) /\ snd (step M s o) = snd (spec_step sp o).
   Proof.
-    intros s sp o (He & Ho & Hd) Hop.
+    intros s sp o R Hop. pose proof R as (He & Ho & Hd & Hk).
     destruct good_parts as (IE & EN & DI & HON & _).
-    destruct o; cbn [step spec_step fst snd op_in_domain] in *.
-    - repeat split; auto.
-    - repeat split; auto.
-    - rewrite EN. simpl. repeat split; auto.
-    - rewrite DI. simpl. repeat split; auto.
-    - rewrite HON, (IE _ Hd), <- He. unfold rel.
-      destruct (spec_enabled (env s)); simpl; rewrite map_app, Ho; auto.
+    destruct o; cbn [step spec_step op_in_domain] in *.
+    - unfold rel; cbn; repeat split; auto.
+    - unfold rel; cbn; repeat split; auto.
+    - rewrite EN. unfold rel; cbn; repeat split; auto.
+    - rewrite DI. unfold rel; cbn; repeat split; auto.
+    - apply decorate_refines; exact R.
     - rewrite <- Ho, nth_error_map'. destruct (nth_error (objs s) i) as [[x|d x]|]; simpl option_map; cbn [tag fst snd];
         repeat split; auto.
       now rewrite wrapped_checked.
+    - unfold rel; cbn [fst snd env objs decos s_env s_objs s_decos]. rewrite app_length, Nat.add_1_r. repeat split; auto.
+    - rewrite <- Hk. destruct (Nat.ltb k (List.length (decos s))) eqn:L.
+      + apply Nat.ltb_lt in L. apply nth_error_Some in L. destruct (nth_error (decos s) k) as [[d e0]|]; [|congruence].
+        rewrite no_create_reads. apply decorate_refines; exact R.
+      + apply Nat.ltb_ge in L. apply nth_error_None in L. rewrite L. cbn [fst snd]. split; [exact R|reflexivity].
   Qed.
 
   Lemma run_refines : forall h s sp, rel s sp -> forallb op_in_domain h = true ->
@@ -108,13 +145,36 @@ Section Good.
     destruct (run_ops M s1 h). destruct (spec_run sp1 h). simpl in *. now subst.
   Qed.
 
-  (* objects are only ever appended: no operation alters an already decorated object *)
+  (* objects and decorator objects are only ever appended: no operation alters what exists already *)
+  Lemma decorate_keeps : forall s d x e i o, nth_error (objs s) i = Some o ->
+    nth_error (objs (fst (decorate M s d x e))) i = Some o.
+  Proof.
+    intros s d x e i o H. unfold decorate.
+    destruct (honours M d); [destruct (is_enabled M e) as [[|]|]|]; cbn [fst add_obj objs]; auto;
+      rewrite nth_error_app1; auto; apply nth_error_Some; congruence.
+  Qed.
+
+  Lemma decorate_decos : forall s d x e, decos (fst (decorate M s d x e)) = decos s.
+  Proof.
+    intros s d x e. unfold decorate.
+    destruct (honours M d); [destruct (is_enabled M e) as [[|]|]|]; reflexivity.
+  Qed.
+
   Lemma step_keeps : forall s o i x, nth_error (objs s) i = Some x -> nth_error (objs (fst (step M s o))) i = Some x.
   Proof.
-    intros s o i x H. destruct o; simpl; auto.
-    - destruct (honours M d); [destruct (is_enabled M (env s)) as [[|]|]|]; simpl; auto;
-        rewrite nth_error_app1; auto; apply nth_error_Some; congruence.
+    intros s o i x H. destruct o; cbn [step fst with_env objs]; auto.
+    - now apply decorate_keeps.
     - destruct (nth_error (objs s) i0); auto.
+    - destruct (nth_error (decos s) k) as [[d e0]|]; auto. now apply decorate_keeps.
+  Qed.
+
+  Lemma step_keeps_deco : forall s o k c, nth_error (decos s) k = Some c -> nth_error (decos (fst (step M s o))) k = Some c.
+  Proof.
+    intros s o k c H. destruct o; cbn [step fst with_env decos]; auto.
+    - now rewrite decorate_decos.
+    - destruct (nth_error (objs s) i); auto.
+    - rewrite nth_error_app1; auto. apply nth_error_Some; congruence.
+    - destruct (nth_error (decos s) k0) as [[d e0]|]; auto. now rewrite decorate_decos.
   Qed.
 
   Lemma run_keeps : forall h s i x, nth_error (objs s) i = Some x ->
@@ -125,6 +185,14 @@ Section Good.
     specialize (IH s1 i x H1). destruct (run_ops M s1 h). exact IH.
   Qed.
 
+  Lemma run_keeps_deco : forall h s k c, nth_error (decos s) k = Some c ->
+    nth_error (decos (fst (run_ops M s h))) k = Some c.
+  Proof.
+    induction h as [|o h IH]; intros s k c H; [exact H|].
+    simpl. pose proof (step_keeps_deco s o k c H) as H1. destruct (step M s o) as [s1 b]. simpl in H1.
+    specialize (IH s1 k c H1). destruct (run_ops M s1 h). exact IH.
+  Qed.
+
   Lemma read_only_at_decoration : forall s i x h1 h2, nth_error (objs s) i = Some x ->
     snd (step M (fst (run_ops M s h1)) (OCall i)) = snd (step M (fst (run_ops M s h2)) (OCall i)).
   Proof.
@@ -133,37 +201,61 @@ Section Good.
     apply call_behaviour_env_independent.
   Qed.
 
+  Lemma nth_last : forall A (l : list A) a, nth_error (l ++ [a]) (List.length l) = Some a.
+  Proof. intros. rewrite nth_error_app2, Nat.sub_diag by auto. reflexivity. Qed.
+
+  (* what a freshly decorated object does when called later is fixed by the value e the guard saw *)
+  Lemma decorated_then_called : forall s d x e h, in_domain e = true ->
+    snd (step M (fst (run_ops M (fst (decorate M s d x e)) h)) (OCall (List.length (objs s)))) =
+    OCalled (if spec_enabled e then Checked else Plain).
+  Proof.
+    intros s d x e h Hd.
+    set (o := if spec_enabled e then Wrapped d x else Identity x).
+    assert (E : nth_error (objs (fst (decorate M s d x e))) (List.length (objs s)) = Some o).
+    { rewrite (decorate_dom s d x e Hd). unfold o. destruct (spec_enabled e); cbn [fst add_obj objs]; apply nth_last. }
+    remember (fst (decorate M s d x e)) as s0 eqn:E0. clear E0.
+    cbn [step]. rewrite (run_keeps h _ _ _ E). cbn [snd]. f_equal. unfold o.
+    destruct (spec_enabled e); [apply wrapped_checked|reflexivity].
+  Qed.
+
   (* headline: what a decorated object does when called is fixed by the switch at decoration, whatever happens in between *)
   Lemma behaviour_fixed : forall s d x h, in_domain (env s) = true ->
     snd (step M (fst (run_ops M (fst (step M s (ODecorate d x))) h)) (OCall (List.length (objs s)))) =
     OCalled (if spec_enabled (env s) then Checked else Plain).
+  Proof. intros s d x h Hd. cbn [step]. now apply decorated_then_called. Qed.
+
+  (* create a decorator object in ANY state, let ANY history pass, apply it: only the value of the variable at the moment of
+     application counts - for the identity of the result and for the behaviour of the result under any later history *)
+  Lemma read_at_application : forall s d h x h',
+    let s1 := fst (step M s (OCreate d)) in
+    let k := List.length (decos s) in
+    let s2 := fst (run_ops M s1 h) in
+    in_domain (env s2) = true ->
+    snd (step M s2 (OApply k x)) = ODeco (negb (spec_enabled (env s2))) /\
+    snd (step M (fst (run_ops M (fst (step M s2 (OApply k x))) h')) (OCall (List.length (objs s2)))) =
+      OCalled (if spec_enabled (env s2) then Checked else Plain).
   Proof.
-    intros s d x h Hd. destruct good_parts as (IE & _ & _ & HON & _).
-    set (o := if spec_enabled (env s) then Wrapped d x else Identity x).
-    assert (E : nth_error (objs (fst (step M s (ODecorate d x)))) (List.length (objs s)) = Some o).
-    { cbn [step]. rewrite HON, (IE _ Hd). unfold o.
-      destruct (spec_enabled (env s)); cbn [fst objs]; rewrite nth_error_app2, Nat.sub_diag by auto; reflexivity. }
-    remember (fst (step M s (ODecorate d x))) as s0 eqn:E0. clear E0.
-    cbn [step]. rewrite (run_keeps h _ _ _ E). cbn [snd]. f_equal. unfold o.
-    destruct (spec_enabled (env s)); [apply wrapped_checked|reflexivity].
+    intros s d h x h' s1 k s2 Hd.
+    assert (E : nth_error (decos s2) k = Some (d, env s)).
+    { apply run_keeps_deco. subst s1 k. cbn [step fst decos]. apply nth_last. }
+    clearbody s2. clear s1.
+    cbn [step]. rewrite E, no_create_reads. split.
+    - rewrite (decorate_dom _ _ _ _ Hd). now destruct (spec_enabled (env s2)).
+    - now apply decorated_then_called.
   Qed.
 
   (* when is_enabled cannot raise, a decoration always adds exactly one object, at the next position *)
   Lemma decorate_appends : (forall e, exists b, is_enabled M e = Ok b) ->
     forall s d x, exists o, nth_error (objs (fst (step M s (ODecorate d x)))) (List.length (objs s)) = Some o.
   Proof.
-    intros T s d x. unfold step. destruct (T (env s)) as [b Hb].
-    destruct (honours M d); [rewrite Hb; destruct b|]; cbn [fst objs]; rewrite nth_error_app2, Nat.sub_diag by auto;
-      cbn [nth_error]; eauto.
+    intros T s d x. cbn [step]. unfold decorate. destruct (T (env s)) as [b Hb].
+    destruct (honours M d); [rewrite Hb; destruct b|]; cbn [fst add_obj objs]; rewrite nth_last; eauto.
   Qed.
 
   Lemma decorate_obs : forall s d x, in_domain (env s) = true ->
     step M s (ODecorate d x) =
     if spec_enabled (env s)
-    then ({| env := env s; objs := objs s ++ [Wrapped d x] |}, ODeco false)
-    else ({| env := env s; objs := objs s ++ [Identity x] |}, ODeco true).
-  Proof.
-    intros s d x Hd. destruct good_parts as (IE & _ & _ & HON & _).
-    simpl. rewrite HON, (IE _ Hd). now destruct (spec_enabled (env s)).
-  Qed.
+    then (add_obj s (Wrapped d x), ODeco false)
+    else (add_obj s (Identity x), ODeco true).
+  Proof. intros s d x Hd. cbn [step]. now apply decorate_dom. Qed.
 End Good.
